@@ -73,6 +73,9 @@ int mpq_ILLlib_addcol(mpq_lpinfo *lp, mpq_ILLlp_basis *B, int cnt, int *ind, mpq
 {
 	int k = g_addcol_calls++;
 	if (k < NSMAX) { g_ac_lp[k] = lp; g_ac_B[k] = B; g_ac_cnt[k] = cnt; g_ac_ind[k] = ind; g_ac_val[k] = val; g_ac_obj[k] = NUMV(obj); g_ac_lo[k] = NUMV(lower); g_ac_up[k] = NUMV(upper); g_ac_name[k] = name; g_ac_fok[k] = factorok; }
+	/* fact of the real ILLlib_addcol that matters to the caller: the per-column arrays (column map, names, integer marks) have
+	 * a CAPACITY structsize >= the number of columns, grown in steps of EXTRA_COLS = 100 */
+	if (lp && lp->O && lp->O->structsize < k + 1) lp->O->structsize = k + 1 + (int) (nondet_uint() % 100u);
 	return rv_or_fail("addcol_fails");
 }
 char *ILLutil_str(const char *s) { char *r = qsv_alloc(1); r[0] = 0; return s ? r : 0; }
@@ -160,6 +163,9 @@ void harness(void)
 			ASSERT(g_ac_obj[j] == objv[j] && g_ac_lo[j] == lov[j] && g_ac_up[j] == upv[j], "C16 faithful: objective coefficient, lower and upper bound of the k-th column");
 			ASSERT(g_ac_name[j] == (has_names ? O->colnames[j] : 0), "C16 faithful: name of the k-th column");
 			if (has_int) ASSERT(p2->qslp->intmarker != 0 && p2->qslp->intmarker[j] == imark[j], "C16 faithful: integer mark of the k-th column");
+#ifdef QSV_CBMC
+			if (has_int && p2->qslp->intmarker != 0) ASSERT(__CPROVER_OBJECT_SIZE(p2->qslp->intmarker) >= (size_t) p2->qslp->structsize, "C16/C17: the copy's integer-mark array has the capacity of the copy's other per-column arrays (structsize): the next column added to the copy writes its mark at index nstruct");
+#endif
 		}
 		if (!has_int) ASSERT(p2->qslp->intmarker == 0, "C16 faithful: no integer marks invented");
 		ASSERT(p2->qslp->objsense == objsense && p2->simplex_display == display && p2->simplex_scaling == scaling, "C16 faithful: objective sense and display/scaling parameters");
